@@ -1718,7 +1718,7 @@ impl IdmServerProxyReadTransaction<'_> {
         rate: &RadiusAuthTokenEvent,
         ct: Duration,
     ) -> Result<RadiusAuthToken, OperationError> {
-        let account = self
+        let mut account = self
             .qs_read
             .impersonate_search_ext_uuid(rate.target, &rate.ident)
             .and_then(|account_entry| {
@@ -1728,6 +1728,13 @@ impl IdmServerProxyReadTransaction<'_> {
                 admin_error!("Failed to start radius auth token {:?}", e);
                 e
             })?;
+
+        // The validity window must not depend on which attributes the asking identity is
+        // allowed to read. A radius server can read the secret but not the expiry, so take
+        // the window from the stored entry rather than the access-reduced one.
+        let account_entry = self.qs_read.internal_search_uuid(rate.target)?;
+        account.valid_from = account_entry.get_ava_single_datetime(Attribute::AccountValidFrom);
+        account.expire = account_entry.get_ava_single_datetime(Attribute::AccountExpire);
 
         account.to_radiusauthtoken(ct)
     }
